@@ -14,7 +14,7 @@
 (*   ("none" | "sync" | "rigid" | "sim" | "scale" | "origin" | "scaleorigin"),    *)
 (*   md (max diff, ticks), tf ("none" | "left" | "right"), g, s (scale of the     *)
 (*   file's matrix), inv, prop, plane ("none" | "xy" | "yz").                     *)
-EXTENDS TrajData
+EXTENDS TrajData, PairsProps
 
 Down(T, n) == IF n = 0 \/ N(T) <= n THEN T ELSE DocReduce(T, IF n = 1 THEN <<1>> ELSE <<1, N(T)>>)        \* n in {1, 2}: no freedom
 \* dh = 2001 stands for "distance threshold never reached, angle threshold 100 degrees" (only rotations keep a pose)
@@ -115,6 +115,34 @@ PoseErr(rel, R, E) ==      \* definition of C01 on one reference / estimate pose
   LET D == PRel(E, R) IN
   CASE rel = "trans" -> Dist2(R.p, E.p) [] rel = "deg" -> AngDeg(D.r) [] rel = "rotpart" -> FrobI2(D.r) [] rel = "full" -> FrobI2(D.r) + Dist2(R.p, E.p)
 ApeExpected(c) == [k \in 1..N(FinalEst(c)) |-> PoseErr(c.q.rel, FinalRef(c).poses[k], FinalEst(c).poses[k])]
+\* delta in metres, consecutive pairs, chosen on the estimate or - pairs_from_reference - on the reference (both PROCESSED):
+\* the chain from start pose i (0-based): j = first pose whose path since i reaches d.  d is given in HALF lattice units and is
+\* odd, so no accumulated path can hit it exactly (positions after a float alignment are 1e-16 off the lattice)
+DrvOf(T) == [steps |-> [k \in 1..(N(T) - 1) |-> StepLen(T, k)], heads |-> [k \in 1..N(T) |-> 0]]
+ChainFrom(drv, d, i0) ==
+  LET n == NP(drv)
+      NextJ(i) == IF \E j \in (i + 1)..(n - 1) : 2 * Path(drv, i, j) >= d
+                  THEN CHOOSE j \in (i + 1)..(n - 1) : 2 * Path(drv, i, j) >= d /\ \A m \in (i + 1)..(j - 1) : 2 * Path(drv, i, m) < d
+                  ELSE -1
+      F[k \in 0..n] == IF k = 0 THEN <<<<>>, i0>>          \* <<pairs so far, current start (-1 = finished)>>
+                       ELSE LET prev == F[k - 1] IN
+                            IF prev[2] = -1 \/ NextJ(prev[2]) = -1 THEN <<prev[1], -1>>
+                            ELSE <<Append(prev[1], <<prev[2], NextJ(prev[2])>>), NextJ(prev[2])>>
+  IN F[n][1]
+PairErr(c, pr) == LET i == pr[1] + 1  j == pr[2] + 1
+                      Q == PRel(FinalRef(c).poses[i], FinalRef(c).poses[j])  P == PRel(FinalEst(c).poses[i], FinalEst(c).poses[j]) IN
+                  PoseErr(c.q.rel, Q, P)
+FirstReach(drv, d) == IF \E f \in 0..(NP(drv) - 1) : 2 * Path(drv, 0, f) >= d
+                      THEN CHOOSE f \in 0..(NP(drv) - 1) : 2 * Path(drv, 0, f) >= d /\ \A m \in 0..(f - 1) : 2 * Path(drv, 0, m) < d ELSE -1
+RpeMetersVerdict(c, o) ==
+  LET drv == DrvOf(IF c.q.fromref THEN FinalRef(c) ELSE FinalEst(c))
+      starts == {i \in 0..(NP(drv) - 1) : \A m \in 0..(i - 1) : 2 * Path(drv, 0, m) < c.q.delta}       \* no later than the first pose reaching delta
+  IN IF \E i0 \in starts : LET prs == ChainFrom(drv, c.q.delta, i0) IN
+                            /\ Len(prs) > 0
+                            /\ o.ts = [k \in DOMAIN prs |-> FinalEst(c).stamps[prs[k][2] + 1]]
+                            /\ o.err = [k \in DOMAIN prs |-> PairErr(c, prs[k])]
+     THEN "ok" ELSE "NotTheSelectedPairsOrValues"
+
 RpeExpected(c) ==       \* delta in frames: all pairs (i, i+d) or the chain 0 -> d -> 2d ...
   LET n == N(FinalEst(c))  d == c.q.delta
       starts == IF c.q.allpairs THEN [k \in 1..(IF n - d > 0 THEN n - d ELSE 0) |-> k] ELSE [k \in 1..((n - 1) \div d) |-> (k - 1) * d + 1]
@@ -135,6 +163,7 @@ MetricVerdict(c, o) ==
        (IF Len(o.err) # N(FinalEst(c)) THEN "NotTheRemainingPosePairs"
         ELSE IF o.ts # FinalEst(c).stamps THEN "NotTheRemainingPosePairs"
         ELSE IF o.err # ApeExpected(c) THEN "StoredValuesNotTheDefinitionOnProcessedTrajectories" ELSE "ok")
+  ELSE IF c.q.dunit = "m" THEN RpeMetersVerdict(c, o)
   ELSE (IF o.ts # RpeStamps(c) THEN "NotTheSelectedPairs"
         ELSE IF o.err # RpeExpected(c) THEN "StoredValuesNotTheDefinitionOnProcessedTrajectories" ELSE "ok")
 ==============================================================================
